@@ -211,7 +211,8 @@ inductive OutFrame where
 
 /-- `Prioritize::pop_frame(buffer, store, max_len, counts)`.
     Fuel: every `continue` either drops a stream from `pending_send` or (scheduled reset with queued
-    DATA) empties its queue so that the next visit yields the RST_STREAM: `2·len + 2` suffices. -/
+    DATA) empties its queue so that the next visit yields the RST_STREAM, or consumes a dead PUSH_PROMISE:
+    see `popFrameFuel`. -/
 def popFrame : Nat → Streams → Nat → Streams × Option OutFrame
   | 0, s, _ => (s, none)
   | fuel + 1, s, maxLen =>
@@ -285,6 +286,14 @@ def popFrame : Nat → Streams → Nat → Streams × Option OutFrame
         | none =>
           popFrame fuel (s.transitionAfter id isPendingReset) maxLen
 
+/-- fuel handed to `popFrame` by its caller (the Rust loop is unbounded). Every `continue` of the loop either
+    takes a stream out of `pending_send` for good, or consumes a queued frame (a dead PUSH_PROMISE, the queue
+    of a stream whose reset is scheduled), or is the one visit that follows `reclaim_all_capacity`, which can
+    move each stream of `pending_capacity` into `pending_send` at most once: twice the queue and the slab,
+    plus every queued frame, bounds them all. -/
+def popFrameFuel (s : Streams) : Nat :=
+  2 * (s.prio.pendingSend.length + s.store.slab.length) + (s.store.slab.map (·.pendingSend.length)).sum + 2
+
 /-- `Prioritize::pop_pending_open(store, counts)` -/
 def popPendingOpen (s : Streams) : Streams × Option Nat :=
   if s.counts.canIncNumSendStreams then
@@ -342,7 +351,7 @@ def prioBufferPendingLoop : Nat → Streams → Writer → Streams × Writer × 
       let s := match s.popPendingOpen with
         | (s, some id) => ((s.qPushFront .pendingSend id).1).tryAssignCapacity id
         | (s, none) => s
-      match popFrame (2 * s.prio.pendingSend.length + 2) s w.maxFrameSize with
+      match popFrame (popFrameFuel s) s w.maxFrameSize with
       | (s, some f) =>
         let (s, w) := s.bufferOut w f
         let (s, w, _) := s.reclaimFrame w
